@@ -627,7 +627,7 @@ func c10Scenario(t *testing.T, in c10Input, work string, idx int, probe bool) (o
 				p = true
 			}
 		}()
-		st, err = setec.NewStore(ctx, cfg)
+		st, err = newStoreReleased(ctx, cfg)
 		return false
 	}()
 	obs.T = int64(time.Since(epoch))
